@@ -22,6 +22,11 @@ def main():
     if os.path.exists(idx):
         for m in json.load(open(idx)):
             items.append(("own-" + m["name"], os.path.join(VERIF, "selftest", "own", m["name"] + ".diff"), m["breaks"], m["what"]))
+    # behaviour-preserving refactorings written by independent sub-agents (selftest/refactor/<name>.diff): no check may fire
+    ridx = os.path.join(VERIF, "selftest", "refactor", "index.json")
+    if os.path.exists(ridx):
+        for m in json.load(open(ridx)):
+            items.append(("ref-" + m["name"], os.path.join(VERIF, "selftest", "refactor", m["name"] + ".diff"), [], m["what"]))
     first = True
     for label, patch, breaks, what in items:
         if only and only not in label:
